@@ -383,6 +383,23 @@ class MessageManager(interfaces.TokenInterface, interfaces.MessageManager):
         """Spawn a responder for an incoming request, or feed a long-running
         responder if one exists."""
 
+        key = (request.remote, request.token)
+        if key in self._piggyback_opportunities:
+            # The old request will not be answered any more (the token
+            # manager drops it in favor of the new one), but its message
+            # still needs its ACK -- and the response to the new request must
+            # not go out under the old message ID.
+            self.log.warning(
+                "New request came in while old request not"
+                " ACKed yet. Possible mismatch between EMPTY_ACK_DELAY"
+                " and EXCHANGE_LIFETIME. Sending empty ACK for the old one."
+            )
+            mid, old_handle = self._piggyback_opportunities.pop(key)
+            old_handle.cancel()
+            self._send_empty_ack(
+                request.remote, mid, "Request superseded by new one on same token"
+            )
+
         if request.mtype == CON:
 
             def on_timeout(self, remote, token):
@@ -398,16 +415,6 @@ class MessageManager(interfaces.TokenInterface, interfaces.MessageManager):
                 request.remote,
                 request.token,
             )
-            key = (request.remote, request.token)
-            if key in self._piggyback_opportunities:
-                self.log.warning(
-                    "New request came in while old request not"
-                    " ACKed yet. Possible mismatch between EMPTY_ACK_DELAY"
-                    " and EXCHANGE_LIFETIME. Cancelling ACK to ward off any"
-                    " further confusion."
-                )
-                mid, old_handle = self._piggyback_opportunities.pop(key)
-                old_handle.cancel()
             self._piggyback_opportunities[key] = (request.mid, handle)
 
         self.token_manager.process_request(request)
